@@ -99,6 +99,14 @@ def gen_history(rng, n_ops):
                 ops.append(["rawobs", i, fmt])
         elif k < 0.80:
             ops.append(["fit", i, rng.randint(0, 9)])
+            if rng.random() < 0.4:
+                # what Island.reset_fitness does: the flag is cleared, the value stays; a copy must carry exactly that
+                ops.append(["flag", i, False])
+                if rng.random() < 0.6 and len(stacks) < 6:
+                    stacks.append([list(r) for r in stacks[i]])
+                    ops.append(["copy", i])
+        elif k < 0.82:
+            ops.append(["flag", i, rng.random() < 0.5])
         elif k < 0.84:
             ops.append(["age", i, rng.randint(0, 9)])
         elif len(stacks) < 6:
@@ -156,6 +164,8 @@ def coq_case(ops, table):
             t = "Observe %d%%nat" % op[1]
         elif op[0] == "fit":
             t = "SetFitness %d%%nat %s" % (op[1], vlib.cz(op[2]))
+        elif op[0] == "flag":
+            t = "SetFlag %d%%nat %s" % (op[1], vlib.cbool(op[2]))
         else:
             t = "SetAge %d%%nat %s" % (op[1], vlib.cz(op[2]))
         out.append("(%s, %s)" % (t, vlib.clist(w, lambda i: "%d%%nat" % i)))
@@ -328,6 +338,9 @@ def impl_main(payload):
                     watch = [op[1]]
                 elif op[0] == "fit":
                     objs[op[1]].fitness = op[2]
+                    watch = [op[1]]
+                elif op[0] == "flag":
+                    objs[op[1]].fit_set = op[2]
                     watch = [op[1]]
                 else:
                     objs[op[1]].genetic_age = op[2]
